@@ -23,7 +23,7 @@ import (
 )
 
 func TestMain(m *testing.M) {
-	vlib.Rule("C26: one S3 request per case against a real `weed s3 -config` child process (identities admin / reader / writer-on-b1 / lister / tagger-on-b1 / admin-of-b2 / wildcard writer / anonymous Read:pubb) over route (all 23 registered routes) x auth style {V4 header, V4 presigned, V2 header, V2 presigned, V4 streaming, POST policy V4/V2, anonymous, type confusion} x variant {valid, wrong secret, unknown key, swapped access key, tampered path/query/header/method/date/sub-resource, expired, bad chunk signature, Bearer/Basic/garbage Authorization, streaming or form-data marker without signature} x identity x bucket {b1,b2,pubb}; fixtures (objects with tags, open multipart uploads) are made through the filer directly. Oracle: a request that is not (valid signature of an identity permitted for the route's action on the bucket, or anonymous and permitted) gets an auth-class error, leaves the filer snapshot unchanged and returns no protected bytes. Non-trivial = not-allowed request on a mutating route. IAM half (in-process): random policy documents -> GetActions -> canDo; non-trivial = policy with >= 2 statements.")
+	vlib.Rule("C26: one S3 request per case against a real `weed s3 -config` child process (identities admin / reader / writer-on-b1 / lister / tagger-on-b1 / admin-of-b2 / wildcard writer / anonymous Read:pubb) over route (all 23 registered routes) x auth style {V4 header, V4 presigned, V2 header, V2 presigned, V4 streaming, POST policy V4/V2, anonymous, type confusion} x variant {valid, wrong secret, unknown key, swapped access key, tampered path/query/header/method/date/sub-resource, expired, bad chunk signature, Bearer/Basic/garbage Authorization, streaming or form-data marker without signature} x identity x bucket {b1,b2,pubb,b1x,pubb2} (b1x / pubb2 extend the name of a bucket some identity is limited to); fixtures (objects with tags, open multipart uploads) are made through the filer directly. Oracle: a request that is not (valid signature of an identity permitted for the route's action on the bucket, or anonymous and permitted) gets an auth-class error, leaves the filer snapshot unchanged and returns no protected bytes. Non-trivial = not-allowed request on a mutating route. IAM half (in-process): random policy documents -> GetActions -> canDo; non-trivial = policy with >= 2 statements.")
 	vlib.Assume("the harness signers implement the AWS specifications (cross-checked against aws-sdk-go's v4 signer; every (route, style) valid request by a permitted identity must be accepted or the run is inconclusive); the action a route needs is the one the router registers; 'permits' follows the documented identity action syntax Action | Action:bucket | trailing *; Admin implies every action")
 	vlib.Main(m)
 }
@@ -48,7 +48,9 @@ var idents = []ident{
 
 var anonymous = ident{Name: "anonymous", Actions: []string{"Read:pubb"}}
 
-var buckets = []string{"b1", "b2", "pubb"}
+// b1x and pubb2 have a permitted bucket's name as a proper prefix: a grant on
+// "Write:b1" or "Read:pubb" (no trailing *) must not extend to them.
+var buckets = []string{"b1", "b2", "pubb", "b1x", "pubb2"}
 
 func (i ident) cred() s3kit.Cred { return s3kit.Cred{Name: i.Name, AK: i.AK, SK: i.SK} }
 
@@ -927,7 +929,8 @@ func TestPropAuthMatrixExhaustive(t *testing.T) {
 			if isValidVariant(c.variant) {
 				for ii, id := range idents {
 					for bi, b := range buckets {
-						if vlib.Thorough() || (ii+bi+ri)%3 == 0 {
+						prefixPair := (b == "b1x" && (id.Name == "writer1" || id.Name == "tagger"))
+						if vlib.Thorough() || (ii+bi+ri)%3 == 0 || prefixPair {
 							runs = append(runs, ib{id, b})
 						} else {
 							full = false
@@ -937,7 +940,7 @@ func TestPropAuthMatrixExhaustive(t *testing.T) {
 			} else {
 				runs = append(runs, ib{idents[0], "b1"})
 				if c.style == "anon" {
-					runs = append(runs, ib{idents[0], "pubb"}, ib{idents[0], "b2"})
+					runs = append(runs, ib{idents[0], "pubb"}, ib{idents[0], "b2"}, ib{idents[0], "pubb2"})
 				}
 				if c.style == "conf" || c.style == "post" {
 					runs = append(runs, ib{idents[0], "pubb"}) // where the anonymous identity may read
